@@ -175,7 +175,28 @@ class BloomDriver:
                     longer = ctx.call(anyo, o.hashes, k, len(hs) + 2)
                     if longer[: len(hs)] == hs:  # a list computed for a larger depth: only the leading number_hashes entries may matter
                         hs = longer
+                if self.case.get("alt_mode") == "scratch":
+                    # the caller's reusable buffer: ONE list object, overwritten for every call
+                    if not hasattr(self, "scratch"):
+                        self.scratch = []
+                    self.scratch[:] = hs
+                    hs = self.scratch
+                    self.events.add("alt_list_scratch")
                 ctx.call(anyo, o.add_alt, hs)
+                if self.case.get("alt_mode") and self._o("member"):
+                    # the same list object then goes to a second live filter of ANOTHER size (a caller indexing one key into several
+                    # filters hashes it once); that filter is verified through the key-based API
+                    if not hasattr(self, "shadow"):
+                        try:
+                            self.shadow = self.B(self.est + 7, self.fpr, hash_function=self.hf)
+                        except Exception:  # noqa  parameters the library refuses for the other size: no second filter in this case
+                            self.shadow = None
+                    if self.shadow is not None:
+                        ctx.call(anyo, self.shadow.add_alt, hs)
+                        r = ctx.call(anyo, self.shadow.check, k)
+                        ctx.check(self._o("member"), r is True, lambda: f"second live filter (est {self.est + 7}) fed the SAME hash list after "
+                                                                        f"add_alt({k!r}) on the first: check({k!r}) -> {r!r}")
+                        self.events.add("shared_hash_list_second_filter")
             else:
                 ctx.call(anyo, o.add, k)
             if alt:
@@ -430,6 +451,7 @@ def case_strategy(tier, kinds=("bloom", "ondisk", "expanding"), hashes=None, max
         ops = draw(st.lists(op, min_size=3, max_size=max_ops))
         return {"kind": kind, "est": est, "fpr": fpr, "hash": draw(gen.hash_name_st(hashes)),
                 "pool": draw(gen.pool_st(2, 10)), "ops": [list(o) for o in ops],
-                "stat_mask": draw(st.one_of(st.just(0), st.integers(1, 255)))}
+                "stat_mask": draw(st.one_of(st.just(0), st.integers(1, 255))),
+                "alt_mode": draw(st.sampled_from(["", "", "scratch", "shared"]))}
 
     return case()
